@@ -22,6 +22,13 @@ Clause ids (`what`)
   read_after_write.<aspect>   chart -> write -> read: chart read back is the chart, times < 1 ms
   drift.gen<N>.<aspect>    generation N >= 2 of write/read cycles vs the FIRST written text (exact times,
                            bpm / SV values to 1e-12 relative)
+  read.same_for_every_way_of_passing_the_lines   lines with terminators / through an instance give the chart of the split text
+  read.results_are_independent                   editing a second result of the same text leaves the first alone
+  write.second_write_denotes_the_same_chart, write.charts_are_independent
+Classes of inputs that report under ids of their own (so that the plain clause stays exercised by every other case):
+  <phase>.background[events:video_first]   a video event stands before the background event in [Events]
+  <phase>.background[events:no_comments], <phase>.samples[events:no_comments]   [Events] without the editor's '//' lines
+  <phase>.well_formed[line_separator_in_romanised_field]   Title / Artist containing U+2028 / U+2029
 """
 from __future__ import annotations
 
@@ -298,9 +305,11 @@ def compare(want, got, tol, rel=1e-12, exact_time=False):
 
 
 def _unidecode(s):
+    """Romanised form of a text as a ONE-LINE field: unidecode maps U+2028 / U+2029 to line breaks, which cannot be
+    part of a `Key:value` line; in a one-line field they are blanks."""
     from unidecode import unidecode
 
-    return unidecode(s)
+    return unidecode(s).replace("\r", " ").replace("\n", " ")
 
 
 def compare_meta_text_vs_memory(dmeta, mmeta, direction):
@@ -383,10 +392,40 @@ EDGE = dict(
     audio_lead_in=[1500000],   # an in-memory int whose ':g' rendering is no longer an integer literal
 )
 TAGS = ["a", "b:c", "é", "日本語", "x-y", "123", "t:a:g"]
+# white space other than the ASCII space INSIDE a value (the format separates tags with ' ' only and trims values
+# at their edges only), full-width / wave-dash punctuation, and the characters that are separators elsewhere in the format
+WS_TAGS = ["東方\u3000アレンジ", "touhou\u00a0project", "a\tb", "em\u2003space", "thin\u2009sp", "nel\x85x", "ls\u2028x", "～wave〜", "x,y", "#h", "//c", "ＦＵＬＬ", "A", "Ａ"]
+WS_TEXTS = ["full\u3000width space", "nb\u00a0sp", "em\u2003space in", "～wave〜 dash", "a,b", "#hash", "a //b", "ＦＵＬＬ　ＷＩＤＴＨ", "x\u2028y", "\"quoted\"", "UPPER lower", "a  two spaces"]
 FILES = ["", "", "hit.wav", "soft-hitclap2.wav", "é.ogg", "a b.wav"]
 TIMES = [0, 1, 565, 1000, 24565, -1, -250, -5000, 0.5, 100.25, 999.75, -0.5, -100.75, 10**9, 10**9 + 0.5, 3600000]
+# values that round differently under truncation / floor / half-even / 6 significant digits
+TIMES2 = [1.999, -1.999, 2.5, -2.5, 3.5, 0.001, -0.001, 0.999999, 1234567, 1234567.25, -1234567.75, 86400000.5, 123456.789]
 BPMS = [120, 177.5, 60, 200, 333.333, 165.00000000000017, 0.001, 1000000.0, 90.1]
+BPMS2 = [123.456789012, 59.94, 1e-06, 700000.5, 128]
 MULTS = [1.0, 0.5, 2.0, 1.25, 0.01, 10.0, -1.0, 0.7071, 3.3333333333333335]
+MULTS2 = [1.23456789, 100.0, 0.001, 0.1, 1]
+
+
+def _time(rng):
+    return rng.choice(TIMES2) if rng.random() < 0.25 else rng.choice(TIMES)
+
+
+def _bpm(rng):
+    return rng.choice(BPMS2) if rng.random() < 0.2 else rng.choice(BPMS)
+
+
+def _mult(rng):
+    return rng.choice(MULTS2) if rng.random() < 0.2 else rng.choice(MULTS)
+
+
+def _text(rng):
+    return rng.choice(WS_TEXTS) if rng.random() < 0.2 else rng.choice(TEXTS)
+
+
+def _tags(rng):
+    """0..4 tags; a third of the lists take tags with non-ASCII white space / separators inside"""
+    pool = TAGS + WS_TAGS if rng.random() < 0.35 else TAGS
+    return rng.sample(pool, rng.randrange(0, 5))
 
 
 def _fmt_time(t):
@@ -401,17 +440,46 @@ def _x_in_column(rng, c, K, mode):
     return rng.choice([lo, hi, rng.randint(lo, hi)])
 
 
+EVENT_LAYOUTS = ["editor", "editor", "editor", "editor", "video_after", "breaks_sprites", "video_first", "no_comments"]
+# layouts of [Events] in which the background / sample lines are NOT where the editor's comment lines say: what they
+# denote does not depend on that (comments are comments).  They report under clause ids of their own.
+OWN_CLAUSE_EVENTS = ("video_first", "no_comments")
+EXTRA_KEYS = dict(General=["EpilepsyWarning: 1", "SkinPreference:", "SamplesMatchPlaybackRate: 0", "AudioHash: 0f:a1"], Editor=["Bookmarks: 1000,2000,3000"],
+                  Metadata=["Genre:unknown: key"], Difficulty=["Unknown:1.5"])
+
+
+def gen_layout(rng):
+    """How the same content is laid out as a text and handed to the reader (every choice leaves the denotation alone)."""
+    lay = dict(
+        eol=rng.choice(["\n", "\n", "\r\n"]),                               # line ends of the text
+        tail=rng.choice(["\n", "\n", "", "\n\n\n", "\n  \n\t\n"]),           # end of the text: one newline / none / blank lines
+        read_as=rng.choice(["split", "split", "keepends", "instance"]),     # list without / with line terminators; through an instance
+        colon=rng.choice([0, 0, 1, 2, 3]),                                  # 0 editor ("K: v" in General/Editor, "K:v" else), 1 padded, 2 "K: v" everywhere, 3 "K:v" everywhere
+        kv_comments=rng.random() < 0.2,                                     # '//' lines inside the key-value sections
+        extra_keys=rng.random() < 0.25,                                     # keys the format has but the chart model has not
+        colours=rng.choice([None, None, None, "after_tp", "before_tp"]),    # a [Colours] section (the editor puts it after [TimingPoints])
+        events=rng.choice(EVENT_LAYOUTS),
+        blank=rng.choice([1, 1, 0, 2]),                                     # blank lines between sections
+        file=rng.random() < 0.2,                                            # also through read_file (besides every 10th case)
+        path=rng.choice(["str", "Path"]),                                   # argument type of read_file
+        second_reader=rng.random() < 0.3,                                   # a second result of the same text is edited afterwards
+    )
+    return lay
+
+
 def gen_text_case(rng, K):
     """JSON-able spec of one whole .osu text of the dialect (emit_text rebuilds the text from it)."""
     n_obj = rng.randrange(0, 7)
     objs = []
     for _ in range(n_obj):
         c = rng.randrange(K)
-        t = rng.choice(TIMES)
-        fields = [rng.choice([0, 0, 2, 4, 8, 10, 14]), rng.randrange(4), rng.randrange(4), rng.choice([0, 0, 1, 7]), rng.choice([0, 0, 35, 100]), rng.choice(FILES)]
+        t = _time(rng)
+        if objs and rng.random() < 0.2:
+            t = rng.choice(objs)["t"]  # a tie: two objects at exactly the same time (any columns)
+        fields = [rng.choice([0, 0, 2, 4, 8, 10, 14, 1, 3, 15]), rng.randrange(4), rng.randrange(4), rng.choice([0, 0, 1, 7]), rng.choice([0, 0, 35, 100]), rng.choice(FILES)]
         o = dict(x=_x_in_column(rng, c, K, rng.choice(["centre", "any", "any"])), y=rng.choice([192, 0, 384]), t=t, hs=fields)
         if rng.random() < 0.4:
-            o["end"] = t + rng.choice([1, 50, 500.5, 100000] if not isinstance(t, int) else [1, 50, 500, 100000])
+            o["end"] = t + rng.choice([1, 50, 500.5, 100000, 0, 0.25] if not isinstance(t, int) else [1, 50, 500, 100000, 0])  # 0: end == start
             o["type"] = rng.choice([128, 128, 132])
         else:
             o["type"] = rng.choice([1, 1, 5, 21, 69])
@@ -421,23 +489,41 @@ def gen_text_case(rng, K):
     elif rng.random() < 0.15:
         objs = [o for o in objs if "end" in o]
     tps = []
-    for _ in range(rng.randrange(1, 4)):
-        un = rng.random() < 0.5
-        v = rng.choice(BPMS) if un else rng.choice(MULTS)
+    shape = rng.choice(["mixed"] * 7 + ["none", "svs_only", "tempo_only"])
+    for _ in range(0 if shape == "none" else rng.randrange(1, 4)):
+        un = rng.random() < 0.5 if shape == "mixed" else shape == "tempo_only"
+        v = _bpm(rng) if un else _mult(rng)
         bl = (60000.0 / v) if un else (-100.0 / v)
-        tps.append(dict(t=rng.choice(TIMES), bl=rng.choice([repr(bl), repr(bl), f"{bl:.12f}".rstrip("0") + "0"]), meter=rng.choice([4, 3, 7]), ss=rng.randrange(4), si=rng.choice([0, 1, 2]), vol=rng.choice([60, 100, 5]), un=int(un), eff=rng.choice([0, 0, 1, 1] + EDGE["effects"])))
-    samples = [dict(t=rng.choice(TIMES), layer=0, file=rng.choice(["clap.wav", "é.ogg", "a b.wav"]), quoted=rng.random() < 0.8, vol=rng.choice([70, 100, 0])) for _ in range(rng.randrange(0, 3))]
+        t = _time(rng)
+        if tps and rng.random() < 0.3:
+            t = rng.choice(tps)["t"]  # a tie: two timing points (tempo / SV, any values) at exactly the same time
+        tps.append(dict(t=t, bl=rng.choice([repr(bl), repr(bl), f"{bl:.12f}".rstrip("0") + "0"]), meter=rng.choice([4, 3, 7]), ss=rng.randrange(4), si=rng.choice([0, 1, 2]), vol=rng.choice([60, 100, 5]), un=int(un), eff=rng.choice([0, 0, 1, 1] + EDGE["effects"])))
+    samples = [dict(t=_time(rng), layer=rng.choice([0, 0, 1, 2, 3]), file=rng.choice(["clap.wav", "é.ogg", "a b.wav", "sb\\Ｓ～.wav"]), quoted=rng.random() < 0.8, vol=rng.choice([70, 100, 0])) for _ in range(rng.randrange(0, 3))]
+    tags = _tags(rng)
+    sep = rng.choice([" ", " ", "  "])
     meta = dict(
-        AudioFilename=rng.choice(["audio.mp3", "a:b.mp3", "é.ogg", "my song.mp3"]), AudioLeadIn=rng.choice([0, 500, 99999]), PreviewTime=rng.choice([-1, 0, 86398]),
+        AudioFilename=rng.choice(["audio.mp3", "a:b.mp3", "é.ogg", "my song.mp3", "ａ　ｂ.mp3"]), AudioLeadIn=rng.choice([0, 500, 99999]), PreviewTime=rng.choice([-1, 0, 86398]),
         Countdown=rng.choice([0, 1, 1] + EDGE["Countdown"]), SampleSet=rng.choice(SAMPLESETS), StackLeniency=rng.choice(["0.7", "0.35", "1"]), Mode=3,
         LetterboxInBreaks=rng.randrange(2), SpecialStyle=rng.randrange(2), WidescreenStoryboard=rng.randrange(2),
         DistanceSpacing=rng.choice(["0.4", "4", "1.5"]), BeatDivisor=rng.choice([4, 8, 16]), GridSize=rng.choice([4, 8, 32]), TimelineZoom=rng.choice(["1.9", "0.3", "2"]),
-        Title=rng.choice(TEXTS), TitleUnicode=rng.choice(TEXTS), Artist=rng.choice(TEXTS), ArtistUnicode=rng.choice(TEXTS), Creator=rng.choice(TEXTS), Version=rng.choice(TEXTS),
-        Source=rng.choice(TEXTS), Tags=" ".join(rng.sample(TAGS, rng.randrange(0, 4))), BeatmapID=rng.choice([0, 2062527]), BeatmapSetID=rng.choice([-1, 965664]),
-        HPDrainRate=rng.choice(["7.5", "5", "8.25"]), CircleSize=str(K), OverallDifficulty=rng.choice(["7.5", "9.3"]), ApproachRate="5", SliderMultiplier=rng.choice(["1.4", "2"]),
+        Title=_text(rng), TitleUnicode=_text(rng), Artist=_text(rng), ArtistUnicode=_text(rng), Creator=_text(rng), Version=_text(rng),
+        Source=_text(rng), Tags=rng.choice(["", "", " ", "  "]) + sep.join(tags) + rng.choice(["", "", " "]), BeatmapID=rng.choice([0, 2062527]), BeatmapSetID=rng.choice([-1, 965664]),
+        HPDrainRate=rng.choice(["7.5", "5", "8.25"]), CircleSize=rng.choice([str(K), str(K), f"{K}.0"]), OverallDifficulty=rng.choice(["7.5", "9.3"]), ApproachRate="5", SliderMultiplier=rng.choice(["1.4", "2"]),
         SliderTickRate=rng.choice(["1", "2"]),
     )
-    return dict(kind="text", K=K, meta=meta, bg=rng.choice(["BG.png", "my: bg.png", "é.jpg", "a,b.jpg", ""]), samples=samples, tps=tps, objs=objs, pad=rng.random() < 0.3)
+    # keys the format allows to be omitted (all but the mode and the key count), and keys in another order
+    r = rng.random()
+    if r < 0.25:
+        for k in rng.sample([k for k in meta if k not in ("Mode", "CircleSize")], rng.choice([1, 1, 3, 8])):
+            del meta[k]
+    elif r < 0.3:
+        for k in [k for k in meta if KEYS[k][0] == "Editor"]:
+            del meta[k]  # a text without an [Editor] section at all
+    if rng.random() < 0.25:
+        ks = list(meta)
+        rng.shuffle(ks)
+        meta = {k: meta[k] for k in ks}
+    return dict(kind="text", K=K, meta=meta, bg=rng.choice(["BG.png", "my: bg.png", "é.jpg", "a,b.jpg", "", "ｂｇ　１.png"]), samples=samples, tps=tps, objs=objs, pad=False, layout=gen_layout(rng))
 
 
 def _objs(spec):
@@ -448,59 +534,154 @@ def _objs(spec):
     return spec["objs"]
 
 
-def emit_text(spec):
+def _sample_line(s, with_volume=True):
+    f = f'"{s["file"]}"' if s["quoted"] else s["file"]
+    return f'Sample,{_fmt_time(s["t"])},{s["layer"]},{f}' + (f',{s["vol"]}' if with_volume else "")
+
+
+def emit_text(spec, sample_volume=True):
+    """The text of a spec.  Old specs (no `layout`) give the text they always gave."""
     m = spec["meta"]
-    sp = "  " if spec.get("pad") else " "
-    L = ["osu file format v14", ""]
+    lay = spec.get("layout") or {}
+    colon = lay.get("colon", 1 if spec.get("pad") else 0)
+    blank = [""] * lay.get("blank", 1)
+    L = ["osu file format v14"] + blank
     for sec in KV_SECTIONS:
+        keys = [k for k in m if KEYS[k][0] == sec]
+        if not keys and lay:
+            continue  # a section without keys is not written at all
         L.append(f"[{sec}]")
-        for k, (s, kind, _a) in KEYS.items():
-            if s == sec and k in m:
-                # the editor writes "Key: value" in [General]/[Editor] and "Key:value" in [Metadata]/[Difficulty]
-                L.append(f"{k}:{sp if sec in ('General', 'Editor') else ''}{m[k]}{'  ' if spec.get('pad') and kind == 'text' else ''}")
-        L.append("")
-    L += ["[Events]", "//Background and Video events", f'0,0,"{spec["bg"]}",0,0', "//Break Periods", "//Storyboard Layer 0 (Background)", "//Storyboard Layer 1 (Fail)",
-          "//Storyboard Layer 2 (Pass)", "//Storyboard Layer 3 (Foreground)", "//Storyboard Layer 4 (Overlay)", "//Storyboard Sound Samples"]
-    for s in spec["samples"]:
-        f = f'"{s["file"]}"' if s["quoted"] else s["file"]
-        L.append(f'Sample,{_fmt_time(s["t"])},{s["layer"]},{f},{s["vol"]}')
-    L += ["", "[TimingPoints]"]
+        if lay.get("kv_comments"):
+            L.append(f"//{keys[0]}:a comment, not a value")
+        for i, k in enumerate(keys):
+            kind = KEYS[k][1]
+            # the editor writes "Key: value" in [General]/[Editor] and "Key:value" in [Metadata]/[Difficulty]
+            sp = {0: " " if sec in ("General", "Editor") else "", 1: "  " if sec in ("General", "Editor") else "", 2: " ", 3: ""}[colon]
+            L.append(f"{k}:{sp}{m[k]}{'  ' if colon == 1 and kind == 'text' else ''}")
+            if lay.get("extra_keys") and i == 0:
+                L += EXTRA_KEYS[sec]
+        L += blank
+    ev = lay.get("events", "editor")
+    bg = f'0,0,"{spec["bg"]}",0,0'
+    video = 'Video,-150,"intro: a.avi",0,0'
+    smp = [_sample_line(s, sample_volume) for s in spec["samples"]]
+    if ev == "editor":
+        E = ["//Background and Video events", bg, "//Break Periods", "//Storyboard Layer 0 (Background)", "//Storyboard Layer 1 (Fail)",
+             "//Storyboard Layer 2 (Pass)", "//Storyboard Layer 3 (Foreground)", "//Storyboard Layer 4 (Overlay)", "//Storyboard Sound Samples"] + smp
+    elif ev == "video_after":
+        E = ["//Background and Video events", bg, video, "//Break Periods", "2,1000,2000", "//Storyboard Layer 0 (Background)", "//Storyboard Layer 1 (Fail)",
+             "//Storyboard Layer 2 (Pass)", "//Storyboard Layer 3 (Foreground)", "//Storyboard Layer 4 (Overlay)", "//Storyboard Sound Samples"] + smp
+    elif ev == "breaks_sprites":
+        E = ["//Background and Video events", bg, "//Break Periods", "2,1000,2000", "2,50000,61000", "//Storyboard Layer 0 (Background)",
+             'Sprite,Background,Centre,"sb\\flash.png",320,240', " F,0,1000,2000,0,1", "_M,0,1000,,320,240", "//Storyboard Layer 1 (Fail)", "//Storyboard Layer 2 (Pass)",
+             'Animation,Pass,Centre,"sb\\a.png",320,240,4,100,LoopForever', "//Storyboard Layer 3 (Foreground)", "//Storyboard Layer 4 (Overlay)", "//Storyboard Sound Samples"] + smp
+    elif ev == "video_first":  # a video event before the background event
+        E = ["//Background and Video events", video, bg, "//Break Periods", "//Storyboard Layer 0 (Background)", "//Storyboard Layer 1 (Fail)",
+             "//Storyboard Layer 2 (Pass)", "//Storyboard Layer 3 (Foreground)", "//Storyboard Layer 4 (Overlay)", "//Storyboard Sound Samples"] + smp
+    elif ev == "no_comments":  # the same events without the editor's comment lines
+        E = [bg] + smp
+    else:
+        raise ValueError(ev)
+    L += ["[Events]"] + E + blank
+    colours = ["[Colours]", "Combo1 : 255,128,0", "Combo2 : 0,202,0"] + blank
+    if lay.get("colours") == "before_tp":
+        L += colours
+    L += ["[TimingPoints]"]
     for t in spec["tps"]:
         L.append(f'{_fmt_time(t["t"])},{t["bl"]},{t["meter"]},{t["ss"]},{t["si"]},{t["vol"]},{t["un"]},{t["eff"]}')
-    L += ["", "", "[HitObjects]"]
+    L += blank if lay else ["", ""]
+    if lay.get("colours") == "after_tp":
+        L += colours
+    L += blank[:1] if lay else []
+    L += ["[HitObjects]"]
     for o in _objs(spec):
         hs, rest = o["hs"][0], ":".join(str(v) for v in o["hs"][1:])
         if "end" in o:
             L.append(f'{o["x"]},{o["y"]},{_fmt_time(o["t"])},{o["type"]},{hs},{_fmt_time(o["end"])}:{rest}')
         else:
             L.append(f'{o["x"]},{o["y"]},{_fmt_time(o["t"])},{o["type"]},{hs},{rest}')
-    return "\n".join(L) + "\n"
+    return lay.get("eol", "\n").join(L) + lay.get("tail", "\n").replace("\n", lay.get("eol", "\n"))
+
+
+LABEL_MODES = [None, None, None, "gappy", "rev", "perm", "sorted", "filtered", "dup"]
+LIST_NAMES = ("hits", "holds", "bpms", "svs", "samples")
 
 
 def gen_chart_case(rng, K):
     """JSON-able spec of one in-memory chart (build_chart rebuilds it through the real constructors)."""
     def nf():
-        return [rng.choice([0, 0, 2, 8, 14]), rng.randrange(4), rng.randrange(4), rng.choice([0, 0, 3]), rng.choice([0, 0, 40, 100]), rng.choice(FILES)]
+        return [rng.choice([0, 0, 2, 8, 14, 1, 15]), rng.randrange(4), rng.randrange(4), rng.choice([0, 0, 3]), rng.choice([0, 0, 40, 100]), rng.choice(FILES)]
 
     def tf():
         return [rng.randrange(4), rng.choice([0, 1]), rng.choice([50, 100, 5]), rng.random() < 0.3]
 
+    def tie(rows, t):
+        return rng.choice(rows)[0] if rows and rng.random() < 0.25 else t  # two rows of a list at exactly the same time
+
     shape = rng.choice(["both", "both", "both", "hits_only", "holds_only", "empty"])
-    hits = [[rng.choice(TIMES), rng.randrange(K)] + nf() for _ in range(0 if shape in ("holds_only", "empty") else rng.randrange(1, 5))]
-    holds = [[rng.choice(TIMES), rng.randrange(K), rng.choice([0.2, 1, 50.5, 500, 99999.9])] + nf() for _ in range(0 if shape in ("hits_only", "empty") else rng.randrange(1, 3))]
-    bpms = [[rng.choice(TIMES), rng.choice(BPMS), rng.choice([4, 3, 7])] + tf() for _ in range(rng.randrange(1, 3))]
-    svs = [[rng.choice(TIMES), rng.choice(MULTS)] + tf() for _ in range(rng.randrange(0, 3))]
-    samples = [[rng.choice(TIMES), rng.choice(["clap.wav", '"clap.wav"', "é.ogg"]), rng.choice([70, 100, 0])] for _ in range(rng.randrange(0, 3))]
+    hits, holds, bpms, svs = [], [], [], []
+    for _ in range(0 if shape in ("holds_only", "empty") else rng.randrange(1, 5)):
+        hits.append([tie(hits, _time(rng)), rng.randrange(K)] + nf())
+    for _ in range(0 if shape in ("hits_only", "empty") else rng.randrange(1, 3)):
+        holds.append([tie(hits + holds, _time(rng)), rng.randrange(K), rng.choice([0.2, 1, 50.5, 500, 99999.9, 0, 0.001, 0.999, 1234567.75])] + nf())  # 0: a hold that ends where it starts
+    for _ in range(rng.choice([1, 1, 1, 2, 2, 3, 0])):  # 0: a chart without any tempo point
+        bpms.append([tie(bpms, _time(rng)), _bpm(rng), rng.choice([4, 3, 7])] + tf())
+    for _ in range(rng.randrange(0, 3)):
+        svs.append([tie(svs + bpms, _time(rng)), _mult(rng)] + tf())
+    samples = [[_time(rng), rng.choice(["clap.wav", '"clap.wav"', "é.ogg", '"sb\\Ｓ～　１.wav"']), rng.choice([70, 100, 0])] for _ in range(rng.randrange(0, 3))]
     meta = dict(
-        audio_file_name=rng.choice(["audio.mp3", "a:b.mp3", "é.ogg"]), audio_lead_in=rng.choice([0, 0, 500, 500, 99999, 99999, 0, 500, 99999] + EDGE["audio_lead_in"]), preview_time=rng.choice([-1, 0, 123456]), countdown=rng.random() < 0.5,
+        audio_file_name=rng.choice(["audio.mp3", "a:b.mp3", "é.ogg", "ａ　ｂ.mp3"]), audio_lead_in=rng.choice([0, 0, 500, 500, 99999, 99999, 0, 500, 99999] + EDGE["audio_lead_in"]), preview_time=rng.choice([-1, 0, 123456]), countdown=rng.random() < 0.5,
         sample_set=rng.randrange(4), stack_leniency=rng.choice([0.7, 0.35, 1.0]), mode=3, letterbox_in_breaks=rng.random() < 0.5, special_style=rng.random() < 0.5,
         widescreen_storyboard=rng.random() < 0.5, distance_spacing=rng.choice([4, 1.5, 0.8]), beat_divisor=rng.choice([4, 8, 16]), grid_size=rng.choice([4, 8, 32]),
-        timeline_zoom=rng.choice([0.3, 1.5, 2]), title=rng.choice(TEXTS), title_unicode=rng.choice(TEXTS), artist=rng.choice(TEXTS), artist_unicode=rng.choice(TEXTS),
-        creator=rng.choice(TEXTS), version=rng.choice(TEXTS), source=rng.choice(TEXTS), tags=rng.sample(TAGS, rng.randrange(0, 4)), beatmap_id=rng.choice([0, 2062527]),
-        beatmap_set_id=rng.choice([-1, 965664]), hp_drain_rate=rng.choice([5.0, 7.5, 8.25]), circle_size=float(K), overall_difficulty=rng.choice([5.0, 9.3]), approach_rate=5.0,
-        slider_multiplier=rng.choice([1.4, 2.0]), slider_tick_rate=rng.choice([1, 2, 4]), background_file_name=rng.choice(["bg.jpg", "my: bg.png", "", "é.png"]),
+        timeline_zoom=rng.choice([0.3, 1.5, 2]), title=_text(rng), title_unicode=_text(rng), artist=_text(rng), artist_unicode=_text(rng),
+        creator=_text(rng), version=_text(rng), source=_text(rng), tags=_tags(rng), beatmap_id=rng.choice([0, 2062527]),
+        beatmap_set_id=rng.choice([-1, 965664]), hp_drain_rate=rng.choice([5.0, 7.5, 8.25]), circle_size=rng.choice([float(K), float(K), int(K)]), overall_difficulty=rng.choice([5.0, 9.3]), approach_rate=5.0,
+        slider_multiplier=rng.choice([1.4, 2.0]), slider_tick_rate=rng.choice([1, 2, 4]), background_file_name=rng.choice(["bg.jpg", "my: bg.png", "", "é.png", "ｂｇ　１.png"]),
     )
-    return dict(kind="chart", K=K, hits=hits, holds=holds, bpms=bpms, svs=svs, samples=samples, meta=meta)
+    if rng.random() < 0.25:  # fields left at the defaults of a new OsuMap() (the tag list's default is the empty string)
+        for k in rng.sample([k for k in meta if k != "circle_size"], rng.choice([1, 3, 10])):
+            del meta[k]
+    spec = dict(kind="chart", K=K, hits=hits, holds=holds, bpms=bpms, svs=svs, samples=samples, meta=meta)
+    # row labels / row order of every list the writer receives, each list on its own
+    if rng.random() < 0.5:
+        spec["labels"] = {n: rng.choice(LABEL_MODES) for n in LIST_NAMES}
+    spec["numbers"] = rng.choice(["py", "py", "py", "numpy", "float"])  # python numbers as generated / numpy scalars / every time a float
+    spec["file"] = dict(on=rng.random() < 0.2, path=rng.choice(["str", "Path"]), over_existing=rng.random() < 0.5)
+    spec["second_chart"] = rng.random() < 0.3
+    return spec
+
+
+def _relabel(lst, mode, n_seed):
+    """the same rows under other row labels / in another row order (what filters, sorts and appends leave behind)"""
+    n = len(lst.df)
+    if mode is None or n == 0:
+        return lst
+    cls = type(lst)
+    if mode == "sorted":
+        return lst.sorted()                        # rows in time order, labels permuted
+    if mode == "filtered":                          # built with a row in front that a filter removes: labels 1..n
+        first = lst.df.iloc[[0]].copy()
+        first["offset"] = float(lst.df["offset"].min()) - 1000.0
+        big = cls(__import__("pandas").concat([first, lst.df], ignore_index=True).astype(lst.df.dtypes.to_dict()))
+        out = big.after(float(lst.df["offset"].min()) - 500.0, include_end=True)
+        assert len(out.df) == n
+        return out
+    df = lst.df.copy()
+    if mode == "gappy":
+        df.index = [3 + 2 * i + i * i for i in range(n)]
+    elif mode == "rev":
+        df.index = list(range(n - 1, -1, -1))
+    elif mode == "dup":                            # what concatenating two lists without re-indexing leaves behind
+        df.index = [i // 2 for i in range(n)]
+    elif mode == "perm":                           # rows AND labels permuted
+        import random as _r
+
+        p = list(range(n))
+        _r.Random(n_seed).shuffle(p)
+        df = df.iloc[p]
+    else:
+        raise ValueError(mode)
+    return cls(df)
 
 
 def build_chart(spec):
@@ -516,16 +697,32 @@ def build_chart(spec):
     from reamber.osu.lists.notes.OsuHitList import OsuHitList
     from reamber.osu.lists.notes.OsuHoldList import OsuHoldList
 
+    numbers = spec.get("numbers", "py")
+    if numbers == "numpy":
+        import numpy as np
+
+        def f(v):
+            return np.int64(v) if isinstance(v, int) else np.float64(v)
+    elif numbers == "float":
+        f = float
+    else:
+        def f(v):
+            return v
+
     nk = ("hitsound_set", "sample_set", "addition_set", "custom_set", "volume", "hitsound_file")
     tk = ("sample_set", "sample_set_index", "volume", "kiai")
     m = OsuMap()
     for k, v in spec["meta"].items():
         setattr(m, k, list(v) if isinstance(v, list) else v)
-    m.hits = OsuHitList([OsuHit(offset=h[0], column=h[1], **dict(zip(nk, h[2:]))) for h in spec["hits"]])
-    m.holds = OsuHoldList([OsuHold(offset=h[0], column=h[1], length=h[2], **dict(zip(nk, h[3:]))) for h in spec["holds"]])
-    m.bpms = OsuBpmList([OsuBpm(offset=b[0], bpm=b[1], metronome=b[2], **dict(zip(tk, b[3:]))) for b in spec["bpms"]])
-    m.svs = OsuSvList([OsuSv(offset=s[0], multiplier=s[1], **dict(zip(tk, s[2:]))) for s in spec["svs"]])
-    m.samples = OsuSampleList([OsuSample(offset=s[0], sample_file=s[1], volume=s[2]) for s in spec["samples"]])
+    m.hits = OsuHitList([OsuHit(offset=f(h[0]), column=h[1], **dict(zip(nk, h[2:]))) for h in spec["hits"]])
+    m.holds = OsuHoldList([OsuHold(offset=f(h[0]), column=h[1], length=f(h[2]), **dict(zip(nk, h[3:]))) for h in spec["holds"]])
+    m.bpms = OsuBpmList([OsuBpm(offset=f(b[0]), bpm=f(b[1]), metronome=b[2], **dict(zip(tk, b[3:]))) for b in spec["bpms"]])
+    m.svs = OsuSvList([OsuSv(offset=f(s[0]), multiplier=f(s[1]), **dict(zip(tk, s[2:]))) for s in spec["svs"]])
+    m.samples = OsuSampleList([OsuSample(offset=f(s[0]), sample_file=s[1], volume=s[2]) for s in spec["samples"]])
+    for i, name in enumerate(LIST_NAMES):
+        mode = (spec.get("labels") or {}).get(name)
+        if mode:
+            setattr(m, name, _relabel(getattr(m, name), mode, 7 * i + len(spec[name])))
     return m
 
 
@@ -545,9 +742,17 @@ def _exc(ex):
     return f"{type(ex).__name__}: {str(ex)[:300]}"
 
 
-def _read_text(text):
+def _read_text(text, how="split"):
+    """The ways a caller hands a text to OsuMap.read (a static method): the list that read_file makes of the file's
+    content (split at '\\n'; CR of a CRLF text stays on the line), the lines with their terminators as readlines()
+    gives them, and the call through an instance instead of the class."""
     from reamber.osu.OsuMap import OsuMap
 
+    if how == "keepends":
+        parts = text.split("\n")
+        return OsuMap.read([p + "\n" for p in parts[:-1]] + ([parts[-1]] if parts[-1] else []))
+    if how == "instance":
+        return OsuMap().read(text.split("\n"))
     return OsuMap.read(text.split("\n"))  # what read_file does with the file's content
 
 
@@ -564,6 +769,20 @@ def _uniq(out):
     return u
 
 
+def _edit_chart(m):
+    """edit every list and every mutable metadata value of a chart in place"""
+    for lst in (m.hits, m.holds, m.bpms, m.svs, m.samples):
+        if len(lst.df):
+            lst.offset += 1000.5
+    if len(m.hits.df):
+        m.hits.column = 0
+        m.hits.volume = 99
+    if isinstance(m.tags, list):
+        m.tags.append("edited")
+    m.title = "edited"
+    m.background_file_name = "edited.png"
+
+
 # ----------------------------------------------------------------------------- read vs denotation (+ write after read)
 
 
@@ -571,9 +790,23 @@ class NotInDialect(Exception):
     pass
 
 
+def _clause(spec, what):
+    """Clause id of a failing aspect.  Background / sample events of a text whose [Events] section is laid out
+    differently from the editor's (OWN_CLAUSE_EVENTS) report under ids of their own."""
+    ev = (spec.get("layout") or {}).get("events")
+    if ev in OWN_CLAUSE_EVENTS and what.rsplit(".", 1)[-1] in ("background", "samples"):
+        return f"{what}[events:{ev}]"
+    if what.endswith(".well_formed") and any(ch in str((spec.get("meta") or {}).get(k, "")) for k in ("Title", "Artist", "title", "artist") for ch in "\u2028\u2029"):
+        # Title / Artist are the romanised fields; U+2028 / U+2029 (inside a line as far as the format goes) are in them
+        return f"{what}[line_separator_in_romanised_field]"
+    return what
+
+
 def run_text_case(spec, files=False):
     """text (generated, or a fixture file) -> REAL read vs den_osu; then REAL write of what was read vs
     den_osu(text), < 1 ms; then generations 2..3."""
+    lay = spec.get("layout") or {}
+    files = files or bool(lay.get("file"))
     if spec.get("kind") == "file":
         with open(os.path.join(REPO, spec["file"]), encoding="utf8") as fh:
             text = fh.read()
@@ -587,20 +820,43 @@ def run_text_case(spec, files=False):
         text = emit_text(spec)
         want = den_osu(text)  # the generator's own text must be in the dialect: an exception here is a checker error
         assert want["keys"] == spec["K"] and len(want["hits"]) + len(want["holds"]) == len(_objs(spec))
+        assert len(want["bpms"]) + len(want["svs"]) == len(spec["tps"]) and len(want["samples"]) == len(spec["samples"]) and want["background"] == spec["bg"]
+        assert all(want["meta"][k] == str(v).strip() for k, v in spec["meta"].items())
         if spec.get("sweep"):
             assert sorted(c for c, _, _ in want["hits"]) == sorted(max(0, min(spec["K"] - 1, x * spec["K"] // 512)) for x in range(512))
     out = []
     try:
         with _quiet():
-            m = _read_text(text)
+            m = _read_text(text, lay.get("read_as", "split"))
             got = chart_of(m)
     except Exception as ex:
         return [("read.accepts", _exc(ex))]
     for a, d in compare(want, got, 1e-6):
-        out.append((f"read.{'kiai_is_effects_bit0' if a == 'kiai' else a}", d))
+        out.append((_clause(spec, f"read.{'kiai_is_effects_bit0' if a == 'kiai' else a}"), d))
     for k, d in compare_meta_text_vs_memory(want["meta"], got["meta"], "read"):
         out.append((f"read.metadata[{k}]", d))
+    if lay.get("read_as", "split") != "split":
+        # every way of handing the same text over gives the same chart
+        try:
+            with _quiet():
+                g2 = chart_of(_read_text(text))
+            if compare(got, g2, 0, exact_time=True) or g2["meta"] != got["meta"]:
+                out.append(("read.same_for_every_way_of_passing_the_lines", f"{lay['read_as']}: {compare(got, g2, 0, exact_time=True) or 'metadata differs'}"))
+        except Exception as ex:
+            out.append(("read.same_for_every_way_of_passing_the_lines", _exc(ex)))
+    if lay.get("second_reader"):
+        # two results alive at once: editing one leaves the other alone (no shared lists / defaults)
+        try:
+            with _quiet():
+                m2 = _read_text(text)
+                _edit_chart(m2)
+                again = chart_of(m)
+            if again != got:
+                out.append(("read.results_are_independent", f"a second chart read from the same text was edited; the first one changed: {[k for k in got if got[k] != again[k]]}"))
+        except Exception as ex:
+            out.append(("read.results_are_independent", _exc(ex)))
     if files:
+        from pathlib import Path
         from reamber.osu.OsuMap import OsuMap
 
         with tempfile.TemporaryDirectory(prefix="c01_") as td:
@@ -609,7 +865,7 @@ def run_text_case(spec, files=False):
                 fh.write(text)
             try:
                 with _quiet():
-                    gf = chart_of(OsuMap.read_file(p))
+                    gf = chart_of(OsuMap.read_file(Path(p) if lay.get("path") == "Path" else p))
                 if compare(got, gf, 1e-9) or gf["meta"] != got["meta"]:
                     out.append(("file.read_file_is_read", str(compare(got, gf, 1e-9) or "metadata differs")))
             except Exception as ex:
@@ -623,9 +879,9 @@ def run_text_case(spec, files=False):
     try:
         d1 = den_osu(t1)
     except DenError as ex:
-        return _uniq(out + [("write_after_read.well_formed", str(ex))])
+        return _uniq(out + [(_clause(spec, "write_after_read.well_formed"), str(ex))])
     for a, d in compare(want, d1, 1.0):
-        out.append((f"write_after_read.{a}", d))
+        out.append((_clause(spec, f"write_after_read.{a}"), d))
     for k, d in compare_meta_text_vs_text(want["meta"], d1["meta"]):
         out.append((f"write_after_read.metadata[{k}]", d))
     out += _drift(t1, d1)
@@ -650,9 +906,13 @@ def _drift(t1, d1, gens=3):
     return out
 
 
+def _unix(spec):
+    return dict(spec, layout=dict(spec.get("layout") or {}, eol="\n")) if spec.get("layout") else spec
+
+
 def explore_dialect_boundary(spec):
     """Not asserted (A5 'dialect boundary'): the same text with the hit-sample suffix omitted.  -> label"""
-    text = emit_text(spec)
+    text = emit_text(_unix(spec))
     lines = text.split("\n")
     i = lines.index("[HitObjects]")
     cut = []
@@ -671,13 +931,32 @@ def explore_dialect_boundary(spec):
         return "raises " + type(ex).__name__
 
 
+def explore_sample_volume_omitted(spec):
+    """Not asserted (same boundary: the editor always writes the field): `Sample,time,layer,"file"` without the
+    volume, which the public description gives a default of 100.  -> label"""
+    try:
+        with _quiet():
+            m = _read_text(emit_text(spec, sample_volume=False))
+        vols = [int(v) for v in m.samples.df["volume"].tolist()] if len(m.samples.df) else []
+        return "read, volume 100" if vols == [100] * len(spec["samples"]) else f"read as {len(vols)} samples, volumes {sorted(set(vols))}"
+    except Exception as ex:
+        return "raises " + type(ex).__name__
+
+
 @bounded("C01", note="whole generated .osu v14 mania texts, every key count 1..18 -> REAL OsuMap.read (and read_file) vs the independent denotation den_osu; then REAL write of what was read vs den_osu(text) < 1 ms, and generations 2..3 against the first written text")
 def wholemap_read_vs_denotation(rep):
     rng = rep.rng
     N = rep.n(300, 5000)
-    rep.bound = f"18 x-sweep texts (one per key count 1..18 with a hit at EVERY x in 0..511) + {N} generated texts: key counts 1..18 cycled (each at least {N // 18} times); 0..6 objects (hits / holds, hits only, holds only, none) on a time grid of {len(TIMES)} values incl. negative, fractional and 1e9; x at the column centre, at both edges of the column's range and anywhere inside; type bits 1/5/21/69/128/132; all hitsound fields varied; 1..3 timing points (tempo / SV, kiai bit); 0..2 sample events; all 30 metadata keys, text values from a pool of {len(TEXTS)} incl. ':' and non-ASCII"
-    rep.rule = "a case is one whole text; non-trivial when it has at least one object; each text is first parsed by the oracle itself (must be in the dialect)"
-    explored = {}
+    rep.bound = (f"18 x-sweep texts (one per key count 1..18 with a hit at EVERY x in 0..511) + {N} generated texts: key counts 1..18 cycled (each at least {N // 18} times); 0..6 objects (hits / holds, hits only, holds only, none) "
+                 f"on a time grid of {len(TIMES)} + {len(TIMES2)} values incl. negative, fractional (x.5, x.999, x.001), 7-digit and 1e9, a fifth of the objects tied with an earlier one, holds with end == start; x at the column centre, at both edges of the "
+                 f"column's range and anywhere inside; type bits 1/5/21/69/128/132; all hitsound fields varied (hitSound incl. bit 0); 0..3 timing points (none / SVs only / tempo only / mixed, a third tied with an earlier point, kiai bit, values needing > 6 digits); "
+                 f"0..2 sample events (layers 0..3, quoted / bare, non-ASCII file); all 30 metadata keys, text values from pools of {len(TEXTS)} + {len(WS_TEXTS)} incl. ':' ',' '#' '//' non-ASCII, full-width and Unicode white space (U+3000, U+00A0, U+2003, U+2028, tab) INSIDE the value, "
+                 f"0..4 tags from pools of {len(TAGS)} + {len(WS_TAGS)} (such white space inside a tag; one or two spaces between tags, spaces at the ends); a quarter of the texts omit 1..8 keys or the whole [Editor] section, a quarter have the keys in another order. "
+                 f"LAYOUT of the same content: LF / CRLF; no / one / several trailing blank lines; 0..2 blank lines between sections; 'Key: v' / 'Key:v' / padded; '//' lines and unknown keys in the key-value sections; a [Colours] section before / after [TimingPoints]; "
+                 f"[Events] as the editor writes it, with a video event after / BEFORE the background, with break periods and storyboard sprites, and without the comment lines; handed to read() as split lines, as lines with terminators, through an instance; "
+                 f"read_file with str and Path (a third of the cases); a second result of the same text edited afterwards (30 %)")
+    rep.rule = "a case is one whole text and its layout; non-trivial when it has at least one object; each text is first parsed by the oracle itself (must be in the dialect, and must denote what the spec says)"
+    explored, explored2, layouts = {}, {}, {}
     for i in range(-18, N):
         if rep.out_of_time(40, 320):
             break
@@ -687,12 +966,18 @@ def wholemap_read_vs_denotation(rep):
         else:
             spec = gen_text_case(rng, 1 + i % 18)
         rep.case(spec, nontrivial=bool(_objs(spec)))
+        layouts[spec["layout"]["events"]] = layouts.get(spec["layout"]["events"], 0) + 1
         for what, d in run_text_case(spec, files=(i % 10 == 0)):
             rep.fail(what, spec, d)
         if i % 10 == 5 and spec["objs"]:
             lab = explore_dialect_boundary(spec)
             explored[lab] = explored.get(lab, 0) + 1
+        if i % 10 == 6 and spec["samples"]:
+            lab = explore_sample_volume_omitted(spec)
+            explored2[lab] = explored2.get(lab, 0) + 1
+    rep.extra["[Events] layouts generated"] = layouts
     rep.extra["not asserted - hit objects without the hit-sample suffix (A5 dialect boundary)"] = explored
+    rep.extra["not asserted - sample events without the volume field (same boundary)"] = explored2
     rep.extra["not asserted"] = "storyboard layer of sample events (the in-memory sample has no layer field; a written sample always has layer 0); defaults of omitted metadata keys"
 
 
@@ -736,11 +1021,15 @@ def _replay_text(case, what):
 
 
 def run_chart_case(spec, files=False):
+    from pathlib import Path
     from reamber.osu.OsuMap import OsuMap
 
+    fopt = spec.get("file") or {}
+    files = files or bool(fopt.get("on"))
     with _quiet():
         m = build_chart(spec)
         chart = chart_of(m)
+    assert sorted(h[0] for h in spec["hits"]) == sorted(t for _, t, _ in chart["hits"]) and len(chart["holds"]) == len(spec["holds"]) and len(chart["bpms"]) == len(spec["bpms"]) and len(chart["svs"]) == len(spec["svs"])
     out = []
     try:
         with _quiet():
@@ -753,17 +1042,43 @@ def run_chart_case(spec, files=False):
         if d1["first"] != "osu file format v14" or [s for s in d1["sections"] if s in need] != need:
             raise DenError(f"header {d1['first']!r}, sections {d1['sections']}")
     except DenError as ex:
-        return [("write.well_formed", str(ex))]
+        return [(_clause(spec, "write.well_formed"), str(ex))]
     for a, d in compare(chart, d1, 1.0):
         out.append((f"write.same_{a}", d))
     for k, d in compare_meta_text_vs_memory(d1["meta"], chart["meta"], "write"):
         out.append((f"write.metadata[{k}]", d))
+    # the text is a function of the chart: writing the same object again denotes the same chart (times exact)
+    try:
+        with _quiet():
+            t1b = _write_text(m)
+        if t1b != t1:
+            d1b = den_osu(t1b)
+            diff = compare(d1, d1b, 0, exact_time=True) + compare_meta_text_vs_text(d1["meta"], d1b["meta"], dec_rel=1e-12)
+            if diff:
+                out.append(("write.second_write_denotes_the_same_chart", str(diff[:2])))
+    except Exception as ex:
+        out.append(("write.second_write_denotes_the_same_chart", _exc(ex)))
+    if spec.get("second_chart"):
+        # two charts alive at once: editing another chart built from the same spec, and writing it, changes nothing here
+        try:
+            with _quiet():
+                m2 = build_chart(spec)
+                _edit_chart(m2)
+                m2.write()
+                t1c = _write_text(m)
+            if t1c != t1:
+                out.append(("write.charts_are_independent", "another chart built from the same values was edited and written; this chart's text changed"))
+        except Exception as ex:
+            out.append(("write.charts_are_independent", _exc(ex)))
     if files:
         with tempfile.TemporaryDirectory(prefix="c01_") as td:
             p = os.path.join(td, "out é.osu")
+            if fopt.get("over_existing"):  # the file exists already and is longer than what will be written
+                with open(p, "w", encoding="utf8") as fh:
+                    fh.write(t1 + "\n[HitObjects]\n" + "256,192,1,1,0,0:0:0:0:\n" * 50)
             try:
                 with _quiet():
-                    m.write_file(p)
+                    m.write_file(Path(p) if fopt.get("path") == "Path" else p)
                 with open(p, encoding="utf8", newline="") as fh:
                     tf = fh.read()
                 if tf != t1:
@@ -778,7 +1093,7 @@ def run_chart_case(spec, files=False):
             if gr is not None and os.path.exists(p):
                 try:
                     with _quiet():
-                        gf = chart_of(OsuMap.read_file(p))
+                        gf = chart_of(OsuMap.read_file(Path(p) if fopt.get("path") == "Path" else p))
                     if compare(gr, gf, 1e-9) or gf["meta"] != gr["meta"]:
                         out.append(("file.read_file_is_read", str(compare(gr, gf, 1e-9) or "metadata differs")))
                 except Exception as ex:
@@ -801,8 +1116,13 @@ def run_chart_case(spec, files=False):
 def wholemap_write_vs_denotation(rep):
     rng = rep.rng
     N = rep.n(300, 5000)
-    rep.bound = f"{N} generated charts: key counts 1..18 cycled; 0..4 hits and 0..2 holds (both, hits only, holds only, empty) with float times from a grid of {len(TIMES)} values incl. negative, fractional and 1e9 and hold lengths 0.2..99999.9; all hitsound fields; 1..2 tempo points (bpm pool of {len(BPMS)} incl. 0.001 and 1e6), 0..2 SVs (multipliers incl. negative and 0.01); 0..2 sample events; all metadata fields, texts incl. ':' and non-ASCII"
-    rep.rule = "a case is one whole chart (finite float offsets, non-zero bpm, non-zero SV multipliers); non-trivial when it has at least one object"
+    rep.bound = (f"{N} generated charts: key counts 1..18 cycled (circle_size as float and as int); 0..4 hits and 0..2 holds (both, hits only, holds only, empty) with times from a grid of {len(TIMES)} + {len(TIMES2)} values incl. negative, "
+                 f"fractional (x.5, x.999, x.001), 7-digit and 1e9, a quarter of the rows tied with an earlier row, hold lengths 0 (end == start), 0.001..1234567.75; all hitsound fields (hitSound incl. bit 0); 0..3 tempo points (bpm pools of {len(BPMS)} + {len(BPMS2)} "
+                 f"incl. 1e-6, 1e6 and 12-digit values), 0..2 SVs (multipliers incl. negative, 0.001 and 100); 0..2 sample events; all metadata fields, texts incl. ':' ',' '#' '//' non-ASCII, full-width and Unicode white space inside the value, 0..4 tags incl. tags with "
+                 f"U+3000 / U+00A0 / U+2003 / tab inside; a quarter of the charts leave 1..10 fields at the defaults of OsuMap(). For half of the charts EVERY list (hits, holds, tempo, SV, samples) independently gets other row labels / row order: gappy, reversed, "
+                 f"permuted rows, sorted(), filtered (labels 1..n), duplicate labels; numbers as python int / float, all float, or numpy scalars; write_file / read_file with str and Path, onto a new file and over a longer existing one (a quarter of the cases); "
+                 f"a second write of the same object; a second chart of the same values edited and written in between (30 %)")
+    rep.rule = "a case is one whole chart (finite offsets, non-zero bpm, non-zero SV multipliers) and how it is held in memory; non-trivial when it has at least one object"
     for i in range(N):
         if rep.out_of_time(40, 320):
             break
